@@ -29,8 +29,12 @@ CLASSES = [('cuts_writer', 4), ('cuts_foreign', 4), ('crash', 1),
            ('overtake', 1), ('length', 3), ('length_delta', 2)]
 TIERS = {'quick': {'chunk': 10, 'budget_s': 25.0},
          'thorough': {'chunk': 40}}
-RULE = ('per generated file (writer- or foreign-produced) EVERY cut point '
-        '0..len(file) is read (complete sweep per file), plus producer '
+RULE = ('per generated file (writer- or foreign-produced) up to 4000 bytes '
+        'EVERY cut point 0..len(file) is read (complete sweep per file; '
+        'probe files_swept_completely) unless a cost model of the file and '
+        'the block size says the sweep is too expensive, in which case an '
+        'evenly spaced subset is read (probe cut_sweep_thinned_for_cost); '
+        'larger files: a grid plus every section boundary; plus producer '
         'crashes inside write(), readers overtaking writers, and length '
         'options raised beyond EOF / negative / non-numeric; an evaluation '
         'is one reader run over one faulty copy; non-trivial = the cut lies '
@@ -373,10 +377,12 @@ def execute(scn, L):
     cuts = scn.get('cuts')
 
     if cuts:
+        complete = False
+
         if cuts.get('mode') == 'all' and len(intact) <= 4000:
             ks = range(0, len(intact) + 1)
             out.case_weight = max(0, len(intact) - 1)
-            out.probe('files_swept_completely')
+            complete = True
         elif cuts.get('mode') == 'all':
             # a very large file: every cut around every section boundary
             # and a regular grid in between (not a complete sweep)
@@ -405,6 +411,28 @@ def execute(scn, L):
             ks = [int(k) for k in cuts.get('at', ()) if
                   0 <= int(k) <= len(intact)]
             out.case_weight = len([k for k in ks if 0 < k < len(intact)])
+
+        if cuts.get('mode') == 'all':
+            # bounded work per file, by a cost model that is a function of
+            # the file and the block size alone (never of the clock): one
+            # pass costs about one read + one seek per block of every
+            # header line and per blank line
+            bse = bs if isinstance(bs, int) and bs > 0 else 96
+            hdr_bytes = len(intact) - sum(ce - he for hs, he, ce in spans)
+            per_pass = hdr_bytes // bse + intact.count(b'\n') - sum(
+                intact.count(b'\n', he, ce) for hs, he, ce in spans) + \
+                len(spans) + 1
+            lim = max(25, 1200000 // max(1, per_pass))
+            ks = list(ks)
+
+            if len(ks) > lim:
+                ks = ks[::-(-len(ks) // lim)]
+                out.case_weight = len([k for k in ks if 0 < k < len(intact)])
+                out.probe('cut_sweep_thinned_for_cost')
+                complete = False
+
+            if complete:
+                out.probe('files_swept_completely')
 
         for k in ks:
             one_cut(k, 'cut')
